@@ -147,8 +147,31 @@ def build(key, variant, i):
     if qual == 'Representation.generateSegmentList':
         return {'env': env, 'call': lambda: rep.generateSegmentList()}
     if qual == 'Representation.generateSegmentTimeline':
+        n, R, M = env['n'], env['R'], env['M']
+        if mode == 'live':
+            tl0 = (env['ts'] * env['F']) // 10**6
+            m0, origin, start = rep.calculate_segment_from_timecode(tl0, True)
+            drift, end = R - M, env['B'] * env['ts']
+        else:
+            tl0, m0, origin, start, drift, end = 0, 1, 0, 0, 0, R
+        dcan = lambda m: env['d'](m) + (drift if m == n else 0)
+        env.update(tl0=tl0, a0=m0, tl_start=start, origin_time=origin, end_=end,
+                   dx=lambda i: dcan(((i - 1) % n) + 1), optval=lambda x: x,
+                   dx_periodic_live=True, dx_periodic_vod=True, __unbounded_hi__=max(4, 4 * n + 8))
         return {'env': env, 'call': lambda: rep.generateSegmentTimeline()}
     raise KeyError(qual)
+
+
+def adapt(key, result, env):
+    if key.endswith('generateSegmentTimeline'):
+        from types import SimpleNamespace as NS
+        out, a, t = [], env['a0'], env['tl_start']
+        for node in result:
+            out.append(NS(duration=node.duration, count=node.count, start=node.start, mod_segment=node.mod_segment, a=a, t=t))
+            a += node.count
+            t += node.count * node.duration
+        return out
+    return result
 
 
 # ----------------------------------------------------------------------------- recorded findings (compositions)
@@ -186,3 +209,42 @@ def finding_cross_track_drift(i):
     ref_s = Fraction(L * ref.media_duration, ref.timescale)
     diff = ref_s - track_s
     return abs(diff) > Fraction(1, ts), f'after {L} loops the track origin is {float(track_s):.6f}s, the reference {float(ref_s):.6f}s (drift {float(diff):.6f}s)'
+
+
+def _timeline_entries(rep):
+    """decode the run-length SegmentTimeline into (t, d) entries"""
+    out, t = [], None
+    for node in rep.generateSegmentTimeline():
+        if node.start is not None:
+            t = node.start
+        for _ in range(node.count):
+            out.append((t, node.duration))
+            t += node.duration
+    return out
+
+
+def finding_timeline_entry_refused(i):
+    """C01 $Time$: a SegmentTimeline entry that ends no later than now is answered 404 by the media index."""
+    rep, ref = make_rep(i, 'live')
+    fn = extract_method('dashlive/server/requesthandler/media_requests.py', 'LiveMedia', 'calculate_media_segment_index')
+    E, ts = int(i['E']), rep.timescale
+    refused = []
+    for t, d in _timeline_entries(rep):
+        if (t + d) * 10**6 <= E * ts:
+            try:
+                fn(None, 'live', rep, rep._timing, None, t)
+            except ValueError as err:
+                refused.append((t, d, str(err)[:100]))
+    return bool(refused), (f'{len(refused)} advertised entries refused, first: $Time$={refused[0][0]} d={refused[0][1]} -> '
+                           f'{refused[0][2]}' if refused else 'all advertised entries accepted')
+
+
+def finding_vod_timeline_length(i):
+    """C06: the VOD SegmentTimeline must enumerate exactly the stored segments (S(i-1), d(i)), i = 1..n."""
+    rep, ref = make_rep(i, 'vod')
+    entries = _timeline_entries(rep)
+    want, t = [], 0
+    for seg in rep.segments[1:]:
+        want.append((t, seg.duration))
+        t += seg.duration
+    return entries != want, f'timeline lists {len(entries)} segments, the file stores {len(want)}; last listed {entries[-1] if entries else None}'
